@@ -444,9 +444,19 @@ func (h *Handler) isAllowed(ip net.IP) bool {
 }
 
 // AddAllowedRoute adds a CIDR route to the allowed routes list.
+// Adding a route that is already listed is a no-op: a dynamic route can be
+// added again to update its metric, and RemoveAllowedRoute removes a single
+// entry, so a duplicate would keep the network allowed after its removal.
 func (h *Handler) AddAllowedRoute(network *net.IPNet) {
 	h.routesMu.Lock()
 	defer h.routesMu.Unlock()
+
+	target := network.String()
+	for _, route := range h.cfg.AllowedRoutes {
+		if route.String() == target {
+			return
+		}
+	}
 	h.cfg.AllowedRoutes = append(h.cfg.AllowedRoutes, network)
 }
 
